@@ -113,6 +113,24 @@ def mixed_pile_case(rnd):
     return {"cfg": cfg, "profile": spec, "seed": rnd.randrange(10 ** 6)}
 
 
+def tied_cowinners_case(rnd):
+    """Two candidates of a solid coalition {x, y, z} cross the quota in the same round with EQUAL tallies, each with a
+    surplus whose ballots continue to the third member z; the coalition holds exactly three quotas, so z is owed the third
+    seat and gets it only if both surpluses arrive (a surplus lost to a shared tie set leaves z short)."""
+    x, y, z, b = rnd.sample(gen.NAMES, 4)
+    T = rnd.randint(3, 9)
+    a = (3 * T + 1) // 2          # 2a >= 3T: the coalition is worth three quotas
+    N = 4 * T - 1                 # floor(N / 4) + 1 == T with m = 3
+    c = N - 2 * a                 # the outsider's bullet votes, below the quota
+    B = lambda r, w: canon.spec_ballot(r=[[q] for q in r], w=w)  # noqa
+    bl = [B([x, z, y], a), B([y, z, x], a)] + ([B([b], c)] if c > 0 else [])
+    rnd.shuffle(bl)
+    spec = canon.spec_profile(rnd.sample([x, y, z, b], 4), bl)
+    cfg = {"rule": "STV", "m": 3, "quota": "droop", "sim": True, "transfer": rnd.choice(["fractional", "random"]),
+           "tiebreak": "random"}
+    return {"cfg": cfg, "profile": spec, "seed": rnd.randrange(10 ** 6)}
+
+
 def run(ctx):
     maxn = 6 if ctx.quick else 7
     max_runs = 3 if ctx.quick else 10
@@ -130,6 +148,9 @@ def run(ctx):
                    "transfer": "random" if (allint and ctx.rnd.random() < 0.5) else "fractional",
                    "tiebreak": ctx.rnd.choice(["random", "random", "borda", "first_place"])}
         ctx.guard("check", check_case, ctx, {"cfg": cfg, "profile": spec, "seed": ctx.rnd.randrange(10 ** 6)}, max_runs)
+        if i % 40 == 7:
+            ctx.count("tied_cowinner_cases")
+            ctx.guard("check", check_case, ctx, tied_cowinners_case(ctx.rnd), 4)
         if i % 60 == 5:
             ctx.count("mixed_pile_cases")
             ctx.guard("check", check_case, ctx, mixed_pile_case(ctx.rnd), 40 if ctx.quick else 200)
